@@ -84,6 +84,12 @@ impl Mempool {
             warn!("golden ticket transaction with a payload that is not a golden ticket. not adding");
             return;
         }
+        // a ticket transaction is filed outside the pool's reservation index: it cannot be allowed to
+        // spend anything a pooled transaction may spend too
+        if golden_ticket.from.iter().any(|input| input.amount > 0) {
+            warn!("golden ticket transaction with value-carrying inputs. not adding");
+            return;
+        }
         let gt = GoldenTicket::deserialize_from_net(&golden_ticket.data);
         debug!(
             "adding golden ticket : {:?} target : {:?} public_key : {:?}",
@@ -217,6 +223,17 @@ impl Mempool {
             public_key = wallet.public_key;
             private_key = wallet.private_key;
         }
+        // a ticket is pooled under the block it names without its solution being looked at (the block may
+        // not even be here yet). a ticket that does not solve the tip would make the bundled block fail its
+        // own validation, and while it is filed it shadows the tickets that do
+        let gt_tx = match gt_tx {
+            Some(tx) if !Self::solves_the_tip(&tx, blockchain) => {
+                warn!("dropping a pooled golden ticket that does not solve the current tip");
+                self.golden_tickets.remove(&previous_block_hash);
+                None
+            }
+            other => other,
+        };
         let mempool_work = self
             .can_bundle_block(blockchain, current_timestamp, &gt_tx, configs, &public_key)
             .await?;
@@ -295,6 +312,20 @@ impl Mempool {
         }
 
         Some(block)
+    }
+
+    /// whether a golden ticket transaction carries a ticket for the current tip that meets its difficulty
+    fn solves_the_tip(golden_ticket: &Transaction, blockchain: &Blockchain) -> bool {
+        if golden_ticket.data.len() != GOLDEN_TICKET_SIZE {
+            return false;
+        }
+        match blockchain.get_latest_block() {
+            Some(tip) => {
+                let gt = GoldenTicket::deserialize_from_net(&golden_ticket.data);
+                gt.target == tip.hash && gt.validate(tip.difficulty)
+            }
+            None => false,
+        }
     }
 
     /// puts back what the pool held before a bundling attempt that produced no block
